@@ -16,6 +16,7 @@ type C15Case struct {
 	SrcFIFO  bool   `json:"srcfifo"`
 	SrcNils  bool   `json:"srcnils"`            // every third source element (from index 1) is nil
 	SrcWeird int    `json:"srcweird,omitempty"` // 1+index of a source element that is a typed nil pointer (depth 1..3) or a pointer to one; 0 none
+	SrcIdx   int    `json:"srcidx,omitempty"`   // index options on the source (1 negative, 2 forward, 3 both) - and on the destination (x4): Transfer addresses elements itself, the options have no say
 	SrcMutex bool   `json:"srcmutex,omitempty"` // the source has SetMutex(): a lock taken on it must be released on every path
 	SrcStack int    `json:"srcstack"`           // index of a nested Stack element in the source, -1 = none
 	DstKind  string `json:"dstkind"`
@@ -44,6 +45,12 @@ func runC15(c C15Case) (st Stats, err error) {
 		if c.SrcMutex {
 			src.SetMutex()
 		}
+		if c.SrcIdx&1 != 0 {
+			src.SetNegativeIndices(true)
+		}
+		if c.SrcIdx&2 != 0 {
+			src.SetForwardIndices(true)
+		}
 		for i := 0; i < c.SrcLen; i++ {
 			var v any = tagValue(100 + i)
 			if c.SrcNils && i%3 == 1 {
@@ -63,6 +70,12 @@ func runC15(c C15Case) (st Stats, err error) {
 			cp = c.DstLen + c.CapExtra
 		}
 		dst = newStackOfKind(c.DstKind, cp)
+		if c.SrcIdx&4 != 0 {
+			dst.SetNegativeIndices(true)
+		}
+		if c.SrcIdx&8 != 0 {
+			dst.SetForwardIndices(true)
+		}
 		// the destination's earlier history must not matter (its backing array may have been re-allocated)
 		switch c.DstPrep {
 		case "reset":
@@ -334,7 +347,7 @@ func enumC15(tier Tier, yield func(C15Case)) {
 					for _, nils := range []bool{false, true} {
 						base := C15Case{SrcKind: stackKinds[(srcLen+dstLen)%5], DstKind: stackKinds[(srcLen+2*dstLen+1)%5],
 							SrcLen: srcLen, DstLen: dstLen, CapExtra: capExtra, SrcFIFO: fifo, SrcNils: nils, SrcStack: -1, Opt: "plain",
-							SrcMutex: (srcLen+dstLen+capExtra)%2 == 0}
+							SrcMutex: (srcLen+dstLen+capExtra)%2 == 0, SrcIdx: (srcLen*7 + dstLen*3 + capExtra + 1) % 16}
 						for _, form := range c15Forms {
 							c := base
 							c.Form = form
@@ -384,6 +397,9 @@ func enumC15(tier Tier, yield func(C15Case)) {
 // genLenWithBulk: usually 0..maxLen, one time in eight 13..70 (past the allocator's growth steps 16/32/64).
 func genLenWithBulk(t *rapid.T, label string, maxLen int) int {
 	if rapid.IntRange(0, 7).Draw(t, label+"-bulk?") == 0 {
+		if rapid.IntRange(0, 5).Draw(t, label+"-huge?") == 0 {
+			return rapid.IntRange(250, 520).Draw(t, label+"-huge")
+		}
 		return rapid.IntRange(13, 70).Draw(t, label+"-bulk")
 	}
 	return rapid.IntRange(0, maxLen).Draw(t, label)
@@ -419,6 +435,9 @@ func genC15(t *rapid.T, tier Tier) C15Case {
 	c.Reject = rapid.IntRange(0, max(maxLen, c.SrcLen)+1).Draw(t, "reject")
 	c.DstPrep = rapid.SampledFrom([]string{"", "", "reset", "remove", "insertfront", "popfifo"}).Draw(t, "dstprep")
 	c.SrcMutex = rapid.Bool().Draw(t, "srcmutex")
+	if rapid.Bool().Draw(t, "idxopts?") {
+		c.SrcIdx = rapid.IntRange(1, 15).Draw(t, "idxopts")
+	}
 	if c.SrcLen > 0 && rapid.IntRange(0, 4).Draw(t, "weird?") == 0 {
 		c.SrcWeird = 1 + rapid.IntRange(0, c.SrcLen-1).Draw(t, "weirdat")
 		if c.SrcWeird-1 == c.SrcStack {
